@@ -6,8 +6,14 @@ import (
 	"github.com/golang/geo/s2"
 )
 
+// isIndexed returns false for features that TokensForFeature gives no
+// tokens at all, namely points with no tags other than their location.
+func isIndexed(feature b6.Feature) bool {
+	return !(feature.FeatureID().Type == b6.FeatureTypePoint && len(feature.AllTags()) == 1)
+}
+
 func TokensForFeature(feature b6.Feature) []string {
-	if feature.FeatureID().Type == b6.FeatureTypePoint && len(feature.AllTags()) == 1 {
+	if !isIndexed(feature) {
 		return []string{}
 	}
 
